@@ -29,7 +29,7 @@ class Model:
         effect (update_pose that raised leaves the pose unchanged)."""
         k = op["op"]
         if k == "new":
-            self.slots[op["s"]] = {"spec": op["spec"], "pose": op["pose"], "poses": 0}
+            self.slots[op["s"]] = {"spec": op["spec"], "pose": op["pose"], "poses": 0, "stack": op.get("stack")}
             return True
         if k == "narrow":
             return op["a"] in self.slots and op["b"] in self.slots
@@ -41,6 +41,8 @@ class Model:
             if took:
                 e["pose"] = op["pose"]
                 e["poses"] += 1
+            if (op.get("how") or "").startswith("pstack") and not e.get("stack"):
+                return False  # the op that created the stack was removed by the minimiser
         return True
 
 
@@ -325,7 +327,20 @@ def gen(rng, tier="quick", prop="C03"):
         else:
             pose = rng.pose()
         spec, pose = place_hull(spec, pose)
-        emit({"op": "new", "s": s, "spec": spec, "pose": pose})
+        op = {"op": "new", "s": s, "spec": spec, "pose": pose}
+        if "pose-delivery" in faults and spec["kind"] != "hull":
+            c = rng.random()
+            if c < 0.3:
+                # the caller keeps a stack of poses; the collider is constructed from item 0 of it
+                op["stack"] = [pose] + [rng.pose() if rng.chance(0.5) else gen_relative_pose(
+                    rng, {"spec": spec, "pose": pose}, spec, cfg) for _ in range(rng.randint(1, 3))]
+            elif c < 0.45 and s > 0:
+                o = rng.randrange(s)
+                if model.slots[o]["spec"]["kind"] != "hull" and "stack" not in ops[[i for i, x in enumerate(ops) if x["op"] == "new" and x["s"] == o][0]]:
+                    # two colliders constructed from the very same pose array object
+                    op["pose"] = ops[[i for i, x in enumerate(ops) if x["op"] == "new" and x["s"] == o][0]]["pose"]
+                    op["share"] = o
+        emit(op)
 
     def gen_pose_op():
         s = rng.randrange(nslots)
@@ -335,7 +350,23 @@ def gen(rng, tier="quick", prop="C03"):
             pose = gen_relative_pose(rng, model.slots[rng.choice(others)], e["spec"], cfg)
         else:
             pose = rng.pose()
+        if rng.chance(0.15) and e["spec"]["kind"] != "hull":  # joint-like motion: spin about the collider's local z
+            a = rng.uniform(-math.pi, math.pi)
+            Rz = np.array([[math.cos(a), -math.sin(a), 0.0, 0.0], [math.sin(a), math.cos(a), 0.0, 0.0],
+                           [0.0, 0.0, 1.0, 0.0], [0.0, 0.0, 0.0, 1.0]])
+            P = np.array(e["pose"]) @ Rz
+            if rng.chance(0.5):
+                P[:3, 3] = np.array(pose)[:3, 3]
+            pose = (P + 0.0).tolist()
         op = {"op": "pose", "s": s, "pose": pose}
+        if e.get("stack") and rng.chance(0.5):
+            k = rng.randrange(len(e["stack"]))
+            op["pose"] = e["stack"][k]
+            op["how"] = "pstack:%d" % k
+            if "dup" in faults and rng.chance(0.3):
+                op["dup"] = True
+            emit(op)
+            return
         if "pose-delivery" in faults and rng.chance(0.6):
             if rng.chance(0.5):
                 n = rng.randint(1, 5)
@@ -666,7 +697,7 @@ def stats(plan, jr):
         if kind == "pose":
             changed = True
             if op.get("how"):
-                inc("fault.pose-delivery." + ("reuse" if op["how"] == "reuse" else "stack"))
+                inc("fault.pose-delivery." + op["how"].split(":")[0])
                 fault_seen = True
             if op.get("dup"):
                 inc("fault.dup")
